@@ -15,6 +15,9 @@ for c in cfgs:
     for s in c.get("extract", []):
         out = os.path.join(ROOT, "lean", s["out"])
         os.makedirs(os.path.dirname(out), exist_ok=True)
+        if s.get("cmd"):
+            subprocess.run(s["cmd"], env=dict(env, VERIF_REPO="/repo", VERIF_OUT=out), cwd=ROOT)
+            continue
         cmd = [os.path.join(ROOT, "bin", "extract"), "-repo", "/repo", "-spec", os.path.join(ROOT, s["spec"]), "-out", out]
         if s.get("tags"): cmd += ["-tags", s["tags"]]
         if s.get("suffix"): cmd += ["-suffix", s["suffix"]]
